@@ -4,6 +4,7 @@ import (
 	"errors"
 	"fmt"
 	"runtime/debug"
+	"strings"
 
 	"github.com/vedadiyan/genql"
 
@@ -754,6 +755,15 @@ func c09Bytes(c *fw.Case) {
 		c.Count("bytes.errors", 1)
 	} else {
 		c.Count("bytes.values", 1)
+	}
+	// the same text once more (the parse result of the first evaluation is in
+	// the cache now): a text that was an error stays an error, a value stays
+	// that value
+	got2, err2, pan2, _ := reader(doc, text)
+	if pan2 != nil || (err == nil) != (err2 == nil) || (err == nil && !strings.Contains(text, "mix") && !sameSelValue(got, got2)) {
+		det["second_evaluation"], det["second_error"] = val.Show(got2), fmt.Sprint(err2, pan2)
+		c.Violate("error-ness", fmt.Sprintf("ExecReader(%q) evaluated twice: first %s, then %s", text, short(fmt.Sprint(val.Show(got), " error=", err), 150), short(fmt.Sprint(val.Show(got2), " error=", err2, pan2), 150)), det)
+		return
 	}
 	c.Nontrivial(text)
 }
